@@ -79,33 +79,47 @@ func checkDowngrade(r *Report, p *Prog) {
 			notExistA = name
 		}
 	}
-	// stores to AssertionEl: plaintext stores (value is an Assertion.Element() build) vs ciphertext
-	elemCalls := map[ssa.Value]bool{}
-	for _, c := range methodCallsOn(mk, "(*"+modPath+".Assertion).Element") {
-		elemCalls[c] = true
-	}
-	for _, b := range mk.Blocks {
-		for _, in := range b.Instrs {
-			st, ok := in.(*ssa.Store)
-			if !ok {
-				continue
-			}
-			fa, ok := st.Addr.(*ssa.FieldAddr)
-			if !ok || fieldName(fa.X.Type(), fa.Field) != "AssertionEl" || !typeIs(fa.X.Type(), modPath, "IdpAuthnRequest") {
-				continue
-			}
-			cnd := fc.Cond(b)
-			if elemCalls[st.Val] {
-				cons := p.FnName(mk) + ": cleartext assertion emitted only when the selector said 'no encryption key' (os.ErrNotExist)"
-				ok2 := notExistA != "" && B.Implies(cnd, B.Var(notExistA))
-				why := "the cleartext assertion is emitted under " + a.canon(cnd)
-				r.Check(ok2, rule, cons, p.InstrPos(st), "guard err == os.ErrNotExist", why)
-			} else {
-				cons := p.FnName(mk) + ": ciphertext emitted only when a certificate was selected"
-				r.Check(B.HasVar(nilA) && B.Implies(cnd, B.Var(nilA)), rule, cons, p.InstrPos(st), "guard err == nil", "the encrypted branch runs although the selector failed")
+	// stores to AssertionEl: plaintext stores (value is an Assertion.Element() build) vs ciphertext; looked for in the
+	// function and the helpers it is split into
+	rg := NewRegion(p, mk, 2)
+	elems := rg.Calls("(*" + modPath + ".Assertion).Element")
+	rg.Each(func(x RI) {
+		st, ok := x.I.(*ssa.Store)
+		if !ok {
+			return
+		}
+		fa, ok := st.Addr.(*ssa.FieldAddr)
+		if !ok || fieldName(fa.X.Type(), fa.Field) != "AssertionEl" || !typeIs(fa.X.Type(), modPath, "IdpAuthnRequest") {
+			return
+		}
+		// condition of the store in terms of the emitting function: its position there, and (for a store inside a
+		// helper) the helper's own path condition
+		top := rg.SiteIn(rg.top, x)
+		if top == nil {
+			return
+		}
+		cnd := fc.Cond(top.Block())
+		if x.C != rg.top {
+			hfc := a.Ctx(st.Parent())
+			hfc.ensureConds()
+			cnd = B.And(cnd, hfc.Cond(st.Block()))
+		}
+		plain := false
+		for _, e := range elems {
+			if rg.IsFrom(RV{V: st.Val, C: x.C}, e) {
+				plain = true
 			}
 		}
-	}
+		if plain {
+			cons := p.FnName(mk) + ": cleartext assertion emitted only when the selector said 'no encryption key' (os.ErrNotExist)"
+			ok2 := notExistA != "" && B.Implies(cnd, B.Var(notExistA))
+			why := "the cleartext assertion is emitted under " + a.canon(cnd)
+			r.Check(ok2, rule, cons, p.InstrPos(st), "guard err == os.ErrNotExist", why)
+		} else {
+			cons := p.FnName(mk) + ": ciphertext emitted only when a certificate was selected"
+			r.Check(B.HasVar(nilA) && B.Implies(cnd, B.Var(nilA)), rule, cons, p.InstrPos(st), "guard err == nil", "the encrypted branch runs although the selector failed")
+		}
+	})
 	// any other selector error is a reject
 	if B.HasVar(nilA) && notExistA != "" {
 		rej := fc.RejectFormula()
@@ -403,6 +417,7 @@ func reachedAfter(fc *FuncCtx, c *ssa.Call) *bddNode { return fc.A.B.True }
 func checkOnlyCiphertext(r *Report, p *Prog) {
 	rule := "C08.only-ciphertext"
 	mk := p.MustFunc("saml", "IdpAuthnRequest", "MakeAssertionEl")
+	rg := NewRegion(p, mk, 2) // the sign/encrypt function with the helpers it is split into
 	// readers of IdpAuthnRequest.Assertion
 	n := 0
 	for _, fn := range p.modFns {
@@ -425,7 +440,7 @@ func checkOnlyCiphertext(r *Report, p *Prog) {
 					continue
 				}
 				n++
-				r.Check(fn == mk, rule, fmt.Sprintf("%s: reads the cleartext assertion object", p.FnName(fn)), p.InstrPos(in), "the sign/encrypt function", "the cleartext assertion is read outside the function that signs and encrypts it (it could be serialised into the response in clear)")
+				r.Check(rg.in[fn], rule, fmt.Sprintf("%s: reads the cleartext assertion object", p.FnName(fn)), p.InstrPos(in), "the sign/encrypt function", "the cleartext assertion is read outside the function that signs and encrypts it (it could be serialised into the response in clear)")
 			}
 		}
 	}
@@ -434,30 +449,32 @@ func checkOnlyCiphertext(r *Report, p *Prog) {
 	}
 	// the EncryptedAssertion element has exactly one child: the Encrypt result over the signed tree
 	{
-		a := NewAnalysis(p)
-		fc := a.Ctx(mk)
-		elems := methodCallsOn(mk, "(*"+modPath+".Assertion).Element")
-		isElem := map[ssa.Value]bool{}
-		for _, e := range elems {
-			isElem[e] = true
-		}
-		for _, b := range mk.Blocks {
-			for _, in := range b.Instrs {
-				st, ok := in.(*ssa.Store)
-				if !ok {
-					continue
-				}
-				fa, ok := st.Addr.(*ssa.FieldAddr)
-				if !ok || fieldName(fa.X.Type(), fa.Field) != "AssertionEl" || isElem[st.Val] {
-					continue
-				}
-				okE, why := false, "no rebuilt signed tree found"
-				if len(elems) > 0 {
-					okE, why = encryptedFrom(mk, fc, st.Val, elems[len(elems)-1])
-				}
-				r.Check(okE, rule, p.FnName(mk)+": the EncryptedAssertion holds only the ciphertext of the signed tree", p.InstrPos(st), "one child: Encrypt(cert, bytes of the signed tree)", why)
+		elems := rg.Calls("(*" + modPath + ".Assertion).Element")
+		rg.Each(func(x RI) {
+			st, ok := x.I.(*ssa.Store)
+			if !ok {
+				return
 			}
-		}
+			fa, ok := st.Addr.(*ssa.FieldAddr)
+			if !ok || fieldName(fa.X.Type(), fa.Field) != "AssertionEl" || !typeIs(fa.X.Type(), modPath, "IdpAuthnRequest") {
+				return
+			}
+			for _, e := range elems {
+				if rg.IsFrom(RV{V: st.Val, C: x.C}, e) {
+					return // the signed tree itself (unencrypted branch)
+				}
+			}
+			okE, why := false, "no rebuilt signed tree found"
+			// the signed tree: a build of the assertion (that it is the one after the Signature was stored is C06.signed)
+			for _, e := range elems {
+				if ok2, w2 := encryptedFrom(rg, RV{V: st.Val, C: x.C}, e); ok2 {
+					okE, why = true, ""
+				} else if why == "no rebuilt signed tree found" {
+					why = w2
+				}
+			}
+			r.Check(okE, rule, p.FnName(mk)+": the EncryptedAssertion holds only the ciphertext of the signed tree", p.InstrPos(st), "one child: Encrypt(cert, bytes of the signed tree)", why)
+		})
 	}
 	mr := p.MustFunc("saml", "IdpAuthnRequest", "MakeResponse")
 	lf := litFields(mr, modPath, "Response")
@@ -481,7 +498,7 @@ func checkFresh(r *Report, p *Prog, rule string) {
 			continue
 		}
 		a := NewAnalysis(p)
-		B := a.B
+		_ = a.B
 		fc := a.Ctx(fn)
 		for _, b := range fn.Blocks {
 			for _, in := range b.Instrs {
@@ -506,64 +523,155 @@ func checkFresh(r *Report, p *Prog, rule string) {
 				fc.ensureConds()
 				r.Fn(p.FnName(fn))
 				cons := fmt.Sprintf("%s: %s is fresh random data", p.FnName(fn), what)
-				ms, ok := buf.(*ssa.MakeSlice)
-				if !ok {
-					r.Bad(rule, cons, p.InstrPos(in), "the "+what+" is not a buffer allocated in this function: "+fc.AP(buf))
-					continue
+				got, why := freshRandom(p, a, fc, buf, c, b, 0)
+				switch {
+				case why != "":
+					r.Bad(rule, cons, p.InstrPos(in), why)
+				case got != size:
+					r.Bad(rule, cons, p.InstrPos(in), fmt.Sprintf("buffer length is %s, expected %s", got, size))
+				default:
+					r.OK(rule, cons, p.InstrPos(in), "make(size) filled by io.ReadFull(RandReader, buf), error checked before use")
 				}
-				if fc.AP(ms.Len) != size {
-					r.Bad(rule, cons, p.InstrPos(in), fmt.Sprintf("buffer length is %s, expected %s", fc.AP(ms.Len), size))
-					continue
-				}
-				// writers
-				var fill *ssa.Call
-				bad := ""
-				for _, rf := range *ms.Referrers() {
-					switch y := rf.(type) {
-					case *ssa.Call:
-						if y == c {
-							continue
-						}
-						if calleeIs(y, "io.ReadFull") && y.Call.Args[1] == ssa.Value(ms) {
-							if strings.HasSuffix(fc.AP(y.Call.Args[0]), "xmlenc.RandReader") {
-								fill = y
-							} else {
-								bad = "filled from " + fc.AP(y.Call.Args[0])
-							}
-							continue
-						}
-						if bi, ok := y.Call.Value.(*ssa.Builtin); ok {
-							if bi.Name() == "copy" && y.Call.Args[0] == ssa.Value(ms) {
-								bad = "overwritten by copy()"
-							}
-							continue
-						}
-						cn := calleeName(&y.Call)
-						if strings.HasSuffix(cn, ".Read") || strings.HasSuffix(cn, "ReadAtLeast") || strings.HasSuffix(cn, "rand.Read") {
-							bad = "filled by " + cn + " (a read that may return fewer bytes than the buffer holds, or a source other than RandReader)"
-						}
-						// any other call only reads the buffer (key wrapping, cipher construction)
-					case *ssa.MakeInterface, *ssa.DebugRef, *ssa.Slice:
-					case *ssa.IndexAddr:
-						bad = "written element-wise"
-					}
-				}
-				if bad != "" || fill == nil {
-					if bad == "" {
-						bad = "never filled from the random source"
-					}
-					r.Bad(rule, cons, p.InstrPos(in), "the buffer is "+bad)
-					continue
-				}
-				nm := "isnil(" + fc.AP(fill) + "#1)"
-				okE := B.HasVar(nm) && fc.Implied(b, B.Var(nm))
-				r.Check(okE, rule, cons, p.InstrPos(in), "make(size) filled by io.ReadFull(RandReader, buf), error checked before use", "the buffer is used although reading the random source may have failed")
 			}
 		}
 	}
 	if n < 2 {
 		r.Undecided(rule, "key/IV buffers", "-", fmt.Sprintf("found %d, expected the CBC IV and the RSA key-transport content key", n))
 	}
+}
+
+// freshRandom: buf, used by call `use` in block ub of fc.Fn, is a freshly allocated buffer completely filled from
+// xmlenc.RandReader by io.ReadFull with the read error checked before the use, and written by nothing else. Accepted
+// forms: make([]byte, n); a prefix x[:n] of a fresh make whose other writers only touch x[n:]; the result of a module
+// helper that returns such a buffer of its size parameter (used under the helper's nil error). Returns the access path
+// of the length and "" / a reason.
+func freshRandom(p *Prog, a *Analysis, fc *FuncCtx, buf ssa.Value, use *ssa.Call, ub *ssa.BasicBlock, depth int) (string, string) {
+	B := a.B
+	fc.ensureConds()
+	checkFill := func(region ssa.Value, ms *ssa.MakeSlice) (string, *ssa.Call) {
+		// writers of the allocation
+		var fill *ssa.Call
+		bad := ""
+		var scan func(v ssa.Value, isRegion bool, d int)
+		scan = func(v ssa.Value, isRegion bool, d int) {
+			if v.Referrers() == nil || d > 3 {
+				return
+			}
+			for _, rf := range *v.Referrers() {
+				switch y := rf.(type) {
+				case *ssa.Call:
+					if y == use {
+						continue
+					}
+					if calleeIs(y, "io.ReadFull") && y.Call.Args[1] == v {
+						if !isRegion {
+							continue // fills some other part of the allocation
+						}
+						if strings.HasSuffix(fc.AP(y.Call.Args[0]), "xmlenc.RandReader") {
+							fill = y
+						} else {
+							bad = "filled from " + fc.AP(y.Call.Args[0])
+						}
+						continue
+					}
+					if bi, ok := y.Call.Value.(*ssa.Builtin); ok {
+						if bi.Name() == "copy" && y.Call.Args[0] == v && (isRegion || v == ssa.Value(ms)) {
+							bad = "overwritten by copy()"
+						}
+						continue
+					}
+					cn := calleeName(&y.Call)
+					if isRegion && (strings.HasSuffix(cn, ".Read") || strings.HasSuffix(cn, "ReadAtLeast") || strings.HasSuffix(cn, "rand.Read")) {
+						bad = "filled by " + cn + " (a read that may return fewer bytes than the buffer holds, or a source other than RandReader)"
+					}
+					// any other call only reads the buffer (key wrapping, cipher construction), or writes a disjoint part
+				case *ssa.Slice:
+					// same window as the region: another name for it; a window starting where the region ends: disjoint
+					same := fc.AP(y) == fc.AP(region)
+					scan(y, same, d+1)
+				case *ssa.MakeInterface, *ssa.DebugRef:
+				case *ssa.IndexAddr:
+					if isRegion || v == ssa.Value(ms) {
+						bad = "written element-wise"
+					}
+				}
+			}
+		}
+		scan(ms, region == ssa.Value(ms), 0)
+		if bad == "" && fill == nil {
+			bad = "never filled from the random source"
+		}
+		return bad, fill
+	}
+	switch x := buf.(type) {
+	case *ssa.MakeSlice:
+		bad, fill := checkFill(x, x)
+		if bad != "" {
+			return "", "the buffer is " + bad
+		}
+		nm := "isnil(" + fc.AP(fill) + "#1)"
+		if !(B.HasVar(nm) && fc.Implied(ub, B.Var(nm))) {
+			return "", "the buffer is used although reading the random source may have failed"
+		}
+		return fc.AP(x.Len), ""
+	case *ssa.Slice:
+		ms, ok := x.X.(*ssa.MakeSlice)
+		if !ok || x.Low != nil || x.High == nil {
+			return "", "the buffer is not a freshly allocated buffer (or a prefix of one): " + fc.AP(buf)
+		}
+		bad, fill := checkFill(x, ms)
+		if bad != "" {
+			return "", "the buffer is " + bad
+		}
+		nm := "isnil(" + fc.AP(fill) + "#1)"
+		if !(B.HasVar(nm) && fc.Implied(ub, B.Var(nm))) {
+			return "", "the buffer is used although reading the random source may have failed"
+		}
+		return fc.AP(x.High), ""
+	case *ssa.Extract:
+		call, ok := x.Tuple.(*ssa.Call)
+		if !ok || x.Index != 0 || depth > 1 {
+			break
+		}
+		sc := call.Call.StaticCallee()
+		if sc == nil || !p.InModule(sc) || len(sc.Blocks) == 0 || errIndex(sc) != 1 {
+			break
+		}
+		// the helper: every success return hands back a buffer that is fresh and random in the helper itself
+		hfc := a.Ctx(sc)
+		hfc.ensureConds()
+		size := ""
+		n := 0
+		for _, ret := range hfc.Returns() {
+			if !isNilConst(Resolve(ret.Results[1])) {
+				continue
+			}
+			n++
+			got, why := freshRandom(p, a, hfc, Resolve(ret.Results[0]), nil, ret.Block(), depth+1)
+			if why != "" {
+				return "", "through " + shortFn(sc) + ": " + why
+			}
+			// the helper's size must be one of its parameters: bind it to the argument
+			for i, prm := range sc.Params {
+				if hfc.AP(prm) == got && i < len(call.Call.Args) {
+					got = fc.AP(call.Call.Args[i])
+				}
+			}
+			if size != "" && size != got {
+				return "", "through " + shortFn(sc) + ": returns buffers of different sizes"
+			}
+			size = got
+		}
+		if n == 0 {
+			break
+		}
+		nm := "isnil(" + fc.AP(call) + "#1)"
+		if !(B.HasVar(nm) && fc.Implied(ub, B.Var(nm))) {
+			return "", "the buffer is used although " + shortFn(sc) + " may have failed"
+		}
+		return size, ""
+	}
+	return "", "the buffer is not a freshly allocated buffer filled from the random source: " + fc.AP(buf)
 }
 
 func checkSPSameChecks(r *Report, p *Prog, sc *Scope) {
